@@ -53,10 +53,10 @@ type ConvOut struct {
 	C *CLog // streaming caller
 	H *HLog // streaming handler
 
-	UDone  bool
-	UReply []byte
-	UErr   ErrObs
-	UH     *UHLog
+	UDone          bool
+	UReply         []byte
+	UErr           ErrObs
+	UH             *UHLog
 	StartAt, EndAt time.Time
 }
 
